@@ -1035,7 +1035,16 @@ namespace BitSerializer::Convert::Utf
 				return result.ErrorCode == UtfEncodingErrorCode::Success && !isTruncated ? EncodedStreamReadResult::Success : EncodedStreamReadResult::DecodeError;
 			}
 			// Ignore error code `UnexpectedEnd` if it's not end of file
-			return result.ErrorCode == UtfEncodingErrorCode::Success || result.ErrorCode == UtfEncodingErrorCode::UnexpectedEnd ? EncodedStreamReadResult::Success : EncodedStreamReadResult::DecodeError;
+			if (result.ErrorCode == UtfEncodingErrorCode::Success || result.ErrorCode == UtfEncodingErrorCode::UnexpectedEnd)
+			{
+				if (IsFailed())
+				{
+					// Read error: the pending uncompleted sequence will never be completed, reading ends here (see `IsEnd()` and `IsFailed()`)
+					mStartDataPtr = mEndDataPtr = mEncodedBuffer;
+				}
+				return EncodedStreamReadResult::Success;
+			}
+			return EncodedStreamReadResult::DecodeError;
 		}
 
 		UtfType mUtfType = UtfType::Utf8;
